@@ -186,8 +186,11 @@ def c05_cfgs(tier):
     out += [cfg('c08', 'D2', prog=p) for p in ('FswAS', 'FswAwS', 'AswFwS', 'FsAS')] + [cfg('c08', 1, prog='FswAS')]
     out += [cfg('c04', 1, n=4, ringf=3, ringx=8, w=5, h=1, type=0, exposure=4, client=3),
             cfg('c04', 1, n=4, ringf=3, ringx=40, w=3, h=3, type=1, exposure=4, client=3)]
+    # write delay: the sink hands storage only the frames older than the delay and releases exactly those - the split point is a frame boundary for every image size
+    out += [cfg('c04', 'D1', n=4, ringf=3, ringx=8, w=w, h=h, type=t, exposure=4, write_delay=d, client=c) for (w, h) in ((1, 1), (2, 1), (3, 1), (5, 1), (7, 1), (3, 3), (9, 1)) for t in (0, 1) for d in (3, 6) for c in (0, 3)]
     if tier == 'thorough':
         out += [cfg('c04', 2, n=3, ringf=2, ringx=8, w=5, h=1, type=0, exposure=4, client=3)]
+        out += [cfg('c04', 'D2', n=4, ringf=3, ringx=8, w=w, h=1, type=t, exposure=4, write_delay=d, client=3) for w in (3, 5) for t in (0, 1) for d in (3, 6)]
     return out
 
 
